@@ -100,8 +100,8 @@ theorem indexErrors_decomp (T : ScopeTable) (spec : ColSpec) (D : Frame) :
 
 theorem frameErrors_decomp (T : ScopeTable) (S : Schema) (D : Frame) :
     Decomp (fun d => frameErrors T d S D) := by
-  unfold frameErrors
-  refine decomp_append (decomp_append (decomp_append (decomp_append ?_ ?_) ?_) ?_) ?_
+  unfold frameErrors coreCheckErrors
+  refine decomp_append ?_ (decomp_append (decomp_append (decomp_append ?_ ?_) ?_) ?_)
   · exact decomp_const _
   · unfold presenceErrors; exact decomp_gated' _ _
   · unfold jointUniqueErrors
@@ -113,7 +113,8 @@ theorem frameErrors_decomp (T : ScopeTable) (S : Schema) (D : Frame) :
     · simp only [h, Bool.false_eq_true, ↓reduceIte]
       exact decomp_gated _ _ _
   · exact decomp_flatten_map S.columns (fun c d => columnErrors T d c D) (fun c _ => columnErrors_decomp T c D)
-  · cases S.index with
+  · unfold indexPartErrors
+    cases S.index with
     | none => exact decomp_const []
     | some ix => exact indexErrors_decomp T ix D
 
